@@ -90,12 +90,17 @@ def all_jobs():
     MEMB_REPLACE = [VCALL_VALUE, V_MOVE_ASSIGN, V_CLEAR, CTX_ALLOCATE, V_SWAP_RV_, V_CLONE, V_CTOR_LIT, V_MOVE_CTOR]
     MEMB_CUT = MEMB_REPLACE + [RTE_CTOR, RTE_CTOR_S, '_ZNK4bloc5Value8toStringB5cxx11Ev', '_ZNK4bloc5Value8typeNameB5cxx11Ev']
     COLL_ERASE = '_ZN4bloc10Collection5eraseEN9__gnu_cxx17__normal_iteratorIPKNS_5ValueESt6vectorIS3_SaIS3_EEEE'
-    for n, c, props in (('member_put', 'MemberPUTExpression', ['C01', 'C05', 'C09', 'C10']), ('member_delete', 'MemberDELETEExpression', ['C01', 'C05', 'C09'])):
+    for n, c, props in (('member_put', 'MemberPUTExpression', ['C01', 'C05', 'C09', 'C10']), ('member_delete', 'MemberDELETEExpression', ['C01', 'C05', 'C09']), ('member_at', 'MemberATExpression', ['C01', 'C02', 'C05', 'C09', 'C10'])):
         mg = '_ZNK4bloc%d%s5valueERNS_7ContextE' % (len(c), c)
         J.append(dict(id=n, src='blocc/member/%s.cpp' % n, contract='%s.c' % n, enforce=mg, roots=[mg], replace=list(MEMB_REPLACE), cut=list(MEMB_CUT) + [COLL_ERASE],
                       props=props, pretty='bloc::%s::value' % c, canaries=['normal', 'exceptional'], unwind=2,
                       unwind_why='Value::deref_value() pointer chase; tables hold no pointers (precondition), so one test of the loop condition is complete',
                       structs=DEFAULT_STRUCTS + [STD_STRING, VEC_CHAR, 'bloc::Collection', 'bloc::Tuple', 'bloc::Context']))
+    for n, c, props in (('builtin_chr', 'CHRExpression', ['C01', 'C02', 'C05', 'C10']),):
+        mg = '_ZNK4bloc%d%s5valueERNS_7ContextE' % (len(c), c)
+        J.append(dict(id=n, src='blocc/builtin/%s.cpp' % n, contract='%s.c' % n, enforce=mg, roots=[mg], replace=list(MEMB_REPLACE), cut=list(MEMB_CUT),
+                      props=props, pretty='bloc::%s::value' % c, canaries=['normal', 'exceptional'],
+                      structs=DEFAULT_STRUCTS + [STD_STRING, VEC_CHAR, 'bloc::Context']))
     mg = '_ZNK4bloc12FORStatement4doitERNS_7ContextE'
     CTX_STUBS = ['_ZN4bloc7Context10topControlEv', '_ZN4bloc7Context14topControlDataEv', '_ZN4bloc7Context12stackControlEPKNS_10ControllerEPv',
                  '_ZN4bloc7Context14unstackControlEv', '_ZN4bloc7Context9getSymbolEj', '_ZN4bloc7Context13storeVariableEjONS_5ValueE',
